@@ -251,7 +251,11 @@ class MemoryWorkflowStore(AbstractWorkflowStore):
                     continue
 
             for event in batch:
-                yield event
                 cursor += 1
+                if event.sequence <= after_sequence:
+                    # Subscribed with a cursor ahead of the log (events up to
+                    # after_sequence did not exist yet): never replay them.
+                    continue
+                yield event
                 if self._is_terminal_event(event):
                     return
